@@ -27,7 +27,7 @@ PART = ("PARTIAL proof level: the theorems cover the atomic layer (emplace/extra
         "any previous message content, all signed encodings, unsigned, byte fields, latin-1 strings) and, at message level (Proofs/FlatProofs.v, about the model's "
         "real entry points encode_msg / decode_msg / static_bits_msg), every message which is a sequence of any number of standard-length CODED-CONST / VALUE parameters with "
         "implicit positions: encode succeeds without overlap warning, decode returns the encoded values, the length is the static length "
-        "(C01_flat_message_roundtrip, C08_flat_length_is_static), the round trip also for STRUCTUREs of such parameters nested to any depth, with PHYS-CONST parameters and LEADING-LENGTH byte fields as further leaves (C01_nested_message_roundtrip, C01_physconst_leaf, C01_leading_length_leaf; Proofs/TreeProofs.v), and a message of canonical slices decodes to values which encode to the message again (C03_flat_message_reencode). The composite statement over general parameter trees "
+        "(C01_flat_message_roundtrip, C08_flat_length_is_static) and the PDU is exactly the concatenation of the zero-padded big-endian / byte-swapped raw values (C02_flat_wire_format), the round trip also for STRUCTUREs of such parameters nested to any depth, with PHYS-CONST parameters and LEADING-LENGTH byte fields as further leaves (C01_nested_message_roundtrip, C01_physconst_leaf, C01_leading_length_leaf; Proofs/TreeProofs.v), and a message of canonical slices decodes to values which encode to the message again (C03_flat_message_reencode). The composite statement over general parameter trees "
         "(fields, dynamic-length types, explicit / bit positions, BYTE-SIZE, length keys) is NOT a theorem: it is decided by the model/implementation correspondence on generated "
         "ODX documents plus the property's direct oracle on the implementation. ")
 CODEC_NOTE = TB + ("Model scope: strict mode; int/bytefield/string base types (no floats), STANDARD/MIN-MAX/LEADING-LENGTH/PARAM-LENGTH types, IDENTICAL and integer "
